@@ -242,6 +242,8 @@ func (c cfg) notif(t *rapid.T, maxElems int) *Notif {
 			n.Updates = append(n.Updates, g)
 		}
 	}
+	// an atomic container: delivered as one unit, offered by the same rule as any other notification
+	n.Atomic = one(t, 5, "atomic")
 	return n
 }
 
